@@ -452,3 +452,73 @@ pub proof fn lemma_has_mode_single(modes: Seq<u32>, private: bool)
         if v == mode_code(modes[0], private) { assert(mode_code(#[trigger] modes[0], private) == v); }
     }
 }
+
+/// `let mut vec: Vec<_> = S.iter().collect(); vec.sort();`
+#[verifier::external_body]
+pub fn sorted_refs(s: &HashSet<u32>) -> (r: Vec<&u32>)
+    ensures
+        forall|i: int, j: int| #![trigger r@[i], r@[j]] 0 <= i < j < r@.len() ==> *r@[i] < *r@[j],
+        forall|i: int| #![trigger r@[i]] 0 <= i < r@.len() ==> s@.contains(*r@[i]),
+        forall|v: u32| #![trigger s@.contains(v)] s@.contains(v) ==> exists|i: int| 0 <= i < r@.len() && *#[trigger] r@[i] == v,
+{
+    let mut vec: Vec<_> = s.iter().collect();
+    vec.sort();
+    vec
+}
+
+/// everything except the cursor column
+pub open spec fn same_but_cx(a: Screen, b: Screen) -> bool { same_but_cursor_xy(a, b) && a.cursor.y == b.cursor.y }
+/// `m` is the nearest tab stop strictly right of column x
+pub open spec fn next_stop(s: Screen, m: u32) -> bool {
+    s.tabstops@.contains(m) && m > s.cursor.x && forall|t: u32| #![trigger s.tabstops@.contains(t)] s.tabstops@.contains(t) && t > s.cursor.x ==> m <= t
+}
+
+// ---- lazy_static tables (contents proved by the Kani harnesses, see kani/) --------------------
+pub uninterp spec fn lat1_map() -> [char; 256];
+pub uninterp spec fn vt100_map() -> [char; 256];
+
+#[verifier::external_body]
+pub fn default_mode_clone() -> (r: HashSet<u32>)
+    ensures forall|v: u32| #![trigger r@.contains(v)] r@.contains(v) == (v == DECAWM || v == DECTCEM),
+{
+    unimplemented!() // original expression: _DEFAULT_MODE.clone()
+}
+#[verifier::external_body]
+pub fn lat1_map_clone() -> (r: [char; 256])
+    ensures r == lat1_map(),
+{
+    unimplemented!() // original expression: LAT1_MAP.clone()
+}
+#[verifier::external_body]
+pub fn vt100_map_clone() -> (r: [char; 256])
+    ensures r == vt100_map(),
+{
+    unimplemented!() // original expression: VT100_MAP.clone()
+}
+#[verifier::external_body]
+pub fn hs_extend_step8(s: &mut HashSet<u32>, n: u32)
+    ensures forall|v: u32| #![trigger final(s)@.contains(v)] final(s)@.contains(v) == (old(s)@.contains(v) || (8 <= v && v < n && v % 8 == 0)),
+{
+    s.extend((8..n).step_by(8))
+}
+
+/// power-on state of a screen of the given size (everything except the saved-cursor stack)
+pub open spec fn is_init(s: Screen, columns: u32, lines: u32) -> bool {
+    &&& s.columns == columns && s.lines == lines
+    &&& s.buffer@ == Map::<u32, HashMap<u32, CharOpts>>::empty()
+    &&& (forall|r: u32| #![trigger s.dirty@.contains(r)] s.dirty@.contains(r) == (r < lines))
+    &&& s.margins.is_none()
+    &&& (forall|v: u32| #![trigger s.mode@.contains(v)] s.mode@.contains(v) == (v == DECAWM || v == DECTCEM))
+    &&& s.title@ == ""@ && s.icon_name@ == ""@
+    &&& s.charset == Charset::G0 && s.g0_charset == lat1_map() && s.g1_charset == vt100_map()
+    &&& (forall|t: u32| #![trigger s.tabstops@.contains(t)] s.tabstops@.contains(t) == (8 <= t && t < columns && t % 8 == 0))
+    &&& s.cursor.x == 0 && s.cursor.y == 0 && !s.cursor.hidden && cv(s.cursor.attr) == blank_cell(false)
+    &&& s.saved_columns.is_none()
+}
+
+pub open spec fn same_but_tabstops(a: Screen, b: Screen) -> bool {
+    a.savepoints@ == b.savepoints@ && a.columns == b.columns && a.lines == b.lines && a.dirty@ == b.dirty@
+    && a.margins == b.margins && a.buffer@ == b.buffer@ && a.mode@ == b.mode@ && a.title@ == b.title@
+    && a.icon_name@ == b.icon_name@ && a.charset == b.charset && a.g0_charset == b.g0_charset
+    && a.g1_charset == b.g1_charset && a.cursor == b.cursor && a.saved_columns == b.saved_columns
+}
